@@ -168,7 +168,7 @@ func (env *Env) evalBool(x ast.Expr) *Fm {
 				}
 				return f
 			}
-			if p, ok := env.e.db.Preds[id.Name]; ok {
+			if p, ok := env.e.db.Preds[id.Name]; ok && isBoolExpr(p.Body) {
 				return env.expandPred(p, x)
 			}
 		}
@@ -278,6 +278,10 @@ func (env *Env) adapt(v Val, t types.Type, x ast.Node) Val {
 		if cv, ok := untypedConst(v); ok {
 			if _, _, isInt := intInfo(t); isInt {
 				return Val{T: t, C: []string{env.e.intConst(t, cv)}}
+			}
+			if ub, ok := t.Underlying().(*types.Basic); ok && ub.Kind() == types.UnsafePointer {
+				i, _ := constant.Int64Val(cv)
+				return Val{T: t, C: []string{intLit(i)}}
 			}
 		}
 	}
@@ -834,6 +838,12 @@ func (env *Env) evalCall(x *ast.CallExpr) Val {
 			env.curKey = env.baseKey(bb)
 			env.noteOffset(x.Args[1], env.baseOff(bb))
 			return env.indexVal(bb, env.evalAs(x.Args[1], types.Typ[types.Int]), x)
+		case "memAt":
+			r := env.eval(x.Args[0])
+			i := env.evalAs(x.Args[1], types.Typ[types.Int])
+			env.curKey = r.C[0]
+			env.noteOffset(x.Args[1], e.idxLit(0))
+			return e.loadElem(env.st, r.C[0], i.C[0], types.Typ[types.Uint8])
 		case "b2i":
 			v := env.eval(x.Args[0])
 			return Val{T: types.Typ[types.Int], C: []string{e.byteToIdx(v.C[0])}}
@@ -845,13 +855,28 @@ func (env *Env) evalCall(x *ast.CallExpr) Val {
 		if sf, ok := e.db.SpecFns[id.Name]; ok {
 			return env.callSpecFn(sf, x)
 		}
-		if _, ok := e.db.Preds[id.Name]; ok {
-			f := env.evalBool(x)
-			t, ok := f.qf()
-			if !ok {
-				env.fail(x, "quantified pred in term position")
+		if p, ok := e.db.Preds[id.Name]; ok {
+			// term-valued macro (or boolean predicate used as a term)
+			if len(x.Args) != len(p.Params) {
+				env.fail(x, "pred %s: wrong number of arguments", p.Name)
 			}
-			return Val{T: boolT, C: []string{t}}
+			if env.depth > 20 {
+				env.fail(x, "pred recursion")
+			}
+			n := env.child()
+			n.depth++
+			for i, a := range x.Args {
+				n.vars[p.Params[i]] = env.eval(a)
+			}
+			if isBoolExpr(p.Body) {
+				f := n.evalBool(p.Body)
+				t, ok := f.qf()
+				if !ok {
+					env.fail(x, "quantified pred in term position")
+				}
+				return Val{T: boolT, C: []string{t}}
+			}
+			return n.eval(p.Body)
 		}
 	}
 	env.fail(x, "unsupported call")
@@ -918,4 +943,28 @@ func (env *Env) callSpecFn(sf *SpecFn, x *ast.CallExpr) Val {
 	}
 	e.usedSpec(name)
 	return Val{T: rt, C: []string{sx(name, args...)}}
+}
+
+// isBoolExpr: syntactic guess whether a macro body is a formula.
+func isBoolExpr(x ast.Expr) bool {
+	switch x := unparen(x).(type) {
+	case *ast.BinaryExpr:
+		switch x.Op {
+		case token.LAND, token.LOR, token.EQL, token.NEQ, token.LSS, token.LEQ, token.GTR, token.GEQ:
+			return true
+		}
+		return false
+	case *ast.UnaryExpr:
+		return x.Op == token.NOT
+	case *ast.CallExpr:
+		if id, ok := x.Fun.(*ast.Ident); ok {
+			switch id.Name {
+			case "imp", "iff", "forall", "allOf":
+				return true
+			case "ite":
+				return isBoolExpr(x.Args[1])
+			}
+		}
+	}
+	return false
 }
